@@ -35,6 +35,10 @@ CLAIMED['C10'] = dict(
    text='Machine-checked closed form of Validator._exception and Validator.__init__ (regenerated from _validators.py) over the entire configuration space: the raised object has the configured class; message precedence (validator-returned text, else the configured message / exception-instance text); ContractError subclasses carry exactly the given params, the violated function and the validator; other classes are built from (message, errors); per-kind defaults read from _decorators.py / _exceptions.py are ContractError subclasses and ContractError is an AssertionError. Tied to the code by regeneration and by a complete configuration matrix (kind x message x exception form x validator outcome x signature shape) run on model and implementation, with a monitor that also probes str() and pickling on the real objects.',
    design_ref='DESIGN.md 4.10', note=GENERIC_NOTE + ' Partial: str() rendering and pickling are observed on the implementation only (source extraction, repr and pickle are outside the model).',
    technique='Coq proof (closed form by exhaustive case analysis) over code regenerated from source + exhaustive matrix correspondence')
+CLAIMED['C06'] = dict(
+   text='Machine-checked theorems on the wrappers regenerated from _contracts.py: when every pre/post/ensure accepts, the sync and async wrappers call the original with exactly the caller arguments and return exactly its value; with contracts disabled the wrapper is the original call (same outcome object, same final state); and a machine-checked REFUTATION of the full generator protocol on the current tree (sent values are not forwarded, the return value is lost) -- listed as known findings. Identity of argument/result objects, self/cls binding, name/doc/signature/kind/__wrapped__ and generator driver scripts are decided by the side-by-side correspondence (decorated vs bare, model vs real deal) and the metadata monitor.',
+   design_ref='DESIGN.md 4.6', note=GENERIC_NOTE + ' Partial: functools.update_wrapper metadata and descriptor binding are checked on the implementation only.',
+   technique='Coq proof over wrappers regenerated from source + side-by-side differential correspondence')
 UNCLAIMED_REASON = 'not claimed yet: the Coq model and check for this property are still under construction in this round (no technique switch intended)'
 checks, na = [], []
 for p in props:
